@@ -494,6 +494,10 @@ impl HCtx {
                 let sched: Vec<String> = sched_s.split_whitespace().map(|x| x.to_string()).collect();
                 self.conc(mode, reqs, sched);
             }
+            ["fixture", _name] => {
+                self.l1.exec(toks);
+                self.rebuild();
+            }
             ["allow", spec] => {
                 self.allow = match *spec {
                     "none" => None,
